@@ -254,28 +254,41 @@ Inductive gop :=
                                unless the image is larger than the window *)
 | ORender                   (* Vaxis.Render *)
 | ORefresh                  (* Vaxis.Refresh: render with vx.refresh set *)
-| OResize (id : Z).         (* Resize of image id has finished: a new encoding waits to be sent *)
+| OResize (id : Z)          (* Resize of image id has finished: a new encoding waits to be sent *)
+| OTermResize.              (* the TERMINAL changed size (columns or rows) and Vaxis.Render / Refresh was
+                               called: the size-changed branch of Render resizes the two screens, sets
+                               vx.refresh and returns without drawing.  graphicsLast and graphicsNext
+                               stay as they are; the next render() is a full refresh *)
 
 Definition draw_fits (p : placement) (winw winh : Z) : bool := negb ((winw <? p_w p) || (winh <? p_h p)).
 Definition draw_into (gnext : list placement) (p : placement) (winw winh : Z) : list placement :=
   if draw_fits p winw winh then gnext ++ [p] else gnext.
 
-Record gstate := { g_last : list placement; g_next : list placement }.
-Definition g_init : gstate := {| g_last := []; g_next := [] |}.
+(* g_refresh = vx.refresh between calls: set by the size-changed branch of Render, cleared at the
+   end of every Render that draws *)
+Record gstate := { g_last : list placement; g_next : list placement; g_refresh : bool }.
+Definition g_init : gstate := {| g_last := []; g_next := []; g_refresh := false |}.
+Definition g_set_next (s : gstate) (l : list placement) : gstate :=
+  {| g_last := g_last s; g_next := l; g_refresh := g_refresh s |}.
+(* after a render(): graphicsLast = graphicsNext, vx.refresh = false *)
+Definition g_rendered (s : gstate) : gstate :=
+  {| g_last := g_next s; g_next := g_next s; g_refresh := false |}.
+(* after the size-changed branch of Render *)
+Definition g_term_resized (s : gstate) : gstate :=
+  {| g_last := g_last s; g_next := g_next s; g_refresh := true |}.
 
-(* run a history; the result has one list of events per ORender/ORefresh *)
+(* run a history; the result has one list of events per ORender/ORefresh that draws *)
 Fixpoint run_ops (s : gstate) (ops : list gop) : list (list gevent) :=
   match ops with
   | [] => []
-  | OClear :: t => run_ops {| g_last := g_last s; g_next := [] |} t
-  | ODraw p ww wh :: t => run_ops {| g_last := g_last s; g_next := draw_into (g_next s) p ww wh |} t
+  | OClear :: t => run_ops (g_set_next s []) t
+  | ODraw p ww wh :: t => run_ops (g_set_next s (draw_into (g_next s) p ww wh)) t
   | ORender :: t =>
-      let '(ev, gl) := render_graphics false (g_last s) (g_next s) in
-      ev :: run_ops {| g_last := gl; g_next := g_next s |} t
+      fst (render_graphics (g_refresh s) (g_last s) (g_next s)) :: run_ops (g_rendered s) t
   | ORefresh :: t =>
-      let '(ev, gl) := render_graphics true (g_last s) (g_next s) in
-      ev :: run_ops {| g_last := gl; g_next := g_next s |} t
+      fst (render_graphics true (g_last s) (g_next s)) :: run_ops (g_rendered s) t
   | OResize _ :: t => run_ops s t
+  | OTermResize :: t => run_ops (g_term_resized s) t
   end.
 
 (* Image data (kitty).  KittyImage.Resize leaves the new encoding in k.buf and clears k.uploaded;
@@ -305,15 +318,16 @@ Definition after_uploads (pending : list Z) (ev : list wire) : list Z :=
 Fixpoint kitty_frames (s : gstate) (pending : list Z) (ops : list gop) : list (list placement * list wire) :=
   match ops with
   | [] => []
-  | OClear :: t => kitty_frames {| g_last := g_last s; g_next := [] |} pending t
-  | ODraw p ww wh :: t => kitty_frames {| g_last := g_last s; g_next := draw_into (g_next s) p ww wh |} pending t
+  | OClear :: t => kitty_frames (g_set_next s []) pending t
+  | ODraw p ww wh :: t => kitty_frames (g_set_next s (draw_into (g_next s) p ww wh)) pending t
   | ORender :: t =>
-      let ev := send_events pending (fst (render_graphics false (g_last s) (g_next s))) in
-      (g_next s, ev) :: kitty_frames {| g_last := g_next s; g_next := g_next s |} (after_uploads pending ev) t
+      let ev := send_events pending (fst (render_graphics (g_refresh s) (g_last s) (g_next s))) in
+      (g_next s, ev) :: kitty_frames (g_rendered s) (after_uploads pending ev) t
   | ORefresh :: t =>
       let ev := send_events pending (fst (render_graphics true (g_last s) (g_next s))) in
-      (g_next s, ev) :: kitty_frames {| g_last := g_next s; g_next := g_next s |} (after_uploads pending ev) t
+      (g_next s, ev) :: kitty_frames (g_rendered s) (after_uploads pending ev) t
   | OResize i :: t => kitty_frames s (i :: pending) t
+  | OTermResize :: t => kitty_frames (g_term_resized s) pending t
   end.
 
 (* ------------------------------------------------------------------ property predicates
@@ -437,16 +451,17 @@ Definition stale_frame (refresh : bool) (pending : list Z) (prev cur : list plac
 Fixpoint stale_guard (s : gstate) (pending : list Z) (ops : list gop) : bool :=
   match ops with
   | [] => false
-  | OClear :: t => stale_guard {| g_last := g_last s; g_next := [] |} pending t
-  | ODraw p ww wh :: t => stale_guard {| g_last := g_last s; g_next := draw_into (g_next s) p ww wh |} pending t
+  | OClear :: t => stale_guard (g_set_next s []) pending t
+  | ODraw p ww wh :: t => stale_guard (g_set_next s (draw_into (g_next s) p ww wh)) pending t
   | ORender :: t =>
-      let ev := send_events pending (fst (render_graphics false (g_last s) (g_next s))) in
-      stale_frame false pending (g_last s) (g_next s) ||
-      stale_guard {| g_last := g_next s; g_next := g_next s |} (after_uploads pending ev) t
+      let ev := send_events pending (fst (render_graphics (g_refresh s) (g_last s) (g_next s))) in
+      stale_frame (g_refresh s) pending (g_last s) (g_next s) ||
+      stale_guard (g_rendered s) (after_uploads pending ev) t
   | ORefresh :: t =>
       let ev := send_events pending (fst (render_graphics true (g_last s) (g_next s))) in
-      stale_guard {| g_last := g_next s; g_next := g_next s |} (after_uploads pending ev) t
+      stale_guard (g_rendered s) (after_uploads pending ev) t
   | OResize i :: t => stale_guard s (i :: pending) t
+  | OTermResize :: t => stale_guard (g_term_resized s) pending t
   end.
 
 (* ------------------------------------------------------------------ correspondence *)
@@ -543,8 +558,10 @@ Definition c20_pixels_violations (cases : list pixels_case) : list Z :=
    per Render/Refresh, the snapshot of graphicsNext and the placement control sequences found in
    the console output.
    op = (code, id, col, row, w, h, winw, winh): 0 Clear, 1 Draw (into a window of winw x winh
-   cells), 2 Render, 3 Refresh, 4 Resize of image id finished;
-   frame = (refresh, graphicsNext, events); event = (tag, id, col, row): 0 delete, 1 write
+   cells), 2 Render, 3 Refresh, 4 Resize of image id finished, 5 the terminal changed size and
+   Render / Refresh was called (size-changed branch: nothing is written, no frame);
+   frame = (refresh, graphicsNext, events), refresh = 1 for a Refresh and for the first frame after a
+   change of the terminal size (the renderer repaints everything then); event = (tag, id, col, row): 0 delete, 1 write
    (a=p preceded by CUP row+1;col+1), 2 image data (final chunk of an upload of image id),
    anything else = malformed output. *)
 Definition rawp := (Z * Z * Z * Z * Z)%type.
@@ -554,7 +571,8 @@ Definition rawop := (Z * Z * Z * Z * Z * Z * Z * Z)%type.
 Definition mk_op (r : rawop) : gop :=
   let '(code, i, c, rw, w, h, ww, wh) := r in
   if code =? 0 then OClear else if code =? 1 then ODraw (mk_p (i, c, rw, w, h)) ww wh
-  else if code =? 2 then ORender else if code =? 3 then ORefresh else OResize i.
+  else if code =? 2 then ORender else if code =? 3 then ORefresh
+  else if code =? 4 then OResize i else OTermResize.
 Definition rawev := wire.
 Definition ev_key (e : gevent) : rawev :=
   match e with
@@ -574,7 +592,17 @@ Fixpoint next_at_renders (gnext : list placement) (ops : list gop) : list (list 
   | OClear :: t => next_at_renders [] t
   | ODraw p ww wh :: t => next_at_renders (draw_into gnext p ww wh) t
   | ORender :: t | ORefresh :: t => gnext :: next_at_renders gnext t
-  | OResize _ :: t => next_at_renders gnext t
+  | OResize _ :: t | OTermResize :: t => next_at_renders gnext t
+  end.
+
+(* is a frame a full refresh: a Refresh, or the first frame after a change of the terminal size *)
+Fixpoint refresh_at_renders (rf : bool) (ops : list gop) : list bool :=
+  match ops with
+  | [] => []
+  | ORender :: t => rf :: refresh_at_renders false t
+  | ORefresh :: t => true :: refresh_at_renders false t
+  | OTermResize :: t => refresh_at_renders true t
+  | _ :: t => refresh_at_renders rf t
   end.
 
 Definition c20_placement_mismatches (cases : list placement_case) : list Z :=
@@ -585,7 +613,9 @@ Definition c20_placement_mismatches (cases : list placement_case) : list Z :=
                                 (map (fun f : rawframe => snd f) frames) &&
                               list_eqb (list_eqb same_placement)
                                 (next_at_renders [] ops)
-                                (map (fun f : rawframe => map mk_p (snd (fst f))) frames))) cases.
+                                (map (fun f : rawframe => map mk_p (snd (fst f))) frames) &&
+                              list_eqb Bool.eqb (refresh_at_renders false ops)
+                                (map (fun f : rawframe => negb (fst (fst f) =? 0)) frames))) cases.
 
 Definition not_data (e : rawev) : bool := let '(t, _, _, _) := e in negb (t =? 2).
 
@@ -608,11 +638,58 @@ Definition drawn_inside (rops : list rawop) (p : placement) : bool :=
 Definition frames_inside_ok (rops : list rawop) (frames : list rawframe) : bool :=
   forallb (fun f : rawframe => forallb (fun rp => drawn_inside rops (mk_p rp)) (snd (fst f))) frames.
 
+(* The TERMINAL's side of the kitty placement protocol.  A placement is known to the terminal by
+   (image id, placement id); the placement id Vaxis uses is col << 16 | row, so the key is
+   (id, col, row).  a=p creates the placement or replaces the one with the same key; a=d,d=i,i,p
+   deletes that placement only; image data and everything else leave the placements alone.  A change
+   of the terminal's size leaves them alone as well (kitty keeps placements across a resize), so the
+   table is a function of the wire events only. *)
+Definition pkey := (Z * Z * Z)%type.
+Definition key_of (p : placement) : pkey := (p_id p, p_col p, p_row p).
+Definition pkey_eqb (a b : pkey) : bool :=
+  let '(i, c, r) := a in let '(i', c', r') := b in (i =? i') && (c =? c') && (r =? r').
+Definition mem_key (k : pkey) (l : list pkey) : bool := existsb (pkey_eqb k) l.
+
+Definition term_apply (live : list pkey) (e : wire) : list pkey :=
+  let '(t, i, c, r) := e in
+  if t =? 0 then filter (fun k => negb (pkey_eqb k (i, c, r))) live
+  else if t =? 1 then (i, c, r) :: live
+  else live.
+Definition term_run (live : list pkey) (ev : list wire) : list pkey := fold_left term_apply ev live.
+
+(* the terminal shows exactly the placements of [cur] (as sets of keys) *)
+Definition shows_exactly (live : list pkey) (cur : list placement) : bool :=
+  forallb (fun k => mem_key k (map key_of cur)) live && forallb (fun p => mem_key (key_of p) live) cur.
+
+(* after every frame the terminal shows exactly what the application drew in that frame *)
+Fixpoint term_frames_ok (live : list pkey) (frames : list (list placement * list wire)) : bool :=
+  match frames with
+  | [] => true
+  | (cur, ev) :: t => let live' := term_run live ev in shows_exactly live' cur && term_frames_ok live' t
+  end.
+
+(* Domain of that statement: no frame holds two DIFFERENT placements with the same key (the same
+   image drawn twice at the same cell with two cell sizes, which takes a Resize between two Draws
+   without a Clear).  The terminal can hold only one of them. *)
+Definition keys_functional (l : list placement) : bool :=
+  forallb (fun p => forallb (fun q => negb (pkey_eqb (key_of p) (key_of q)) || same_placement p q) l) l.
+
+Definition term_shows_last_frame (frames : list (list placement * list wire)) : bool :=
+  negb (forallb (fun f => keys_functional (fst f)) frames) || term_frames_ok [] frames.
+
 (* the unguarded statement: placement protocol, draw extent, and transmission of image data *)
+Definition wire_frames (frames : list rawframe) : list (list placement * list wire) :=
+  map (fun f : rawframe => (map mk_p (snd (fst f)), snd f)) frames.
+Definition frame_flags (frames : list rawframe) : list bool :=
+  map (fun f : rawframe => negb (fst (fst f) =? 0)) frames.
+
+(* ... and the terminal's placement table: after every frame, also after changes of the terminal
+   size, it holds exactly the placements of that frame (nothing dropped stays, nothing kept is lost) *)
 Definition c20_placement_violations (cases : list placement_case) : list Z :=
-  bad_indices (fun c => negb (frames_key_ok [] (snd c) && frames_inside_ok (fst c) (snd c) &&
-                              trans_ok [] (map mk_op (fst c))
-                                (map (fun f : rawframe => (map mk_p (snd (fst f)), snd f)) (snd c)))) cases.
+  bad_indices (fun c => negb (list_eqb Bool.eqb (refresh_at_renders false (map mk_op (fst c))) (frame_flags (snd c)) &&
+                              frames_key_ok [] (snd c) && frames_inside_ok (fst c) (snd c) &&
+                              trans_ok [] (map mk_op (fst c)) (wire_frames (snd c)) &&
+                              term_shows_last_frame (wire_frames (snd c)))) cases.
 
 (* the cases under the guard of the recorded finding resize-same-cells *)
 Definition c20_known (cases : list placement_case) : list Z :=
@@ -668,3 +745,84 @@ Fixpoint frames_sixel_ok (prev : list placement) (frames : list rawframe) : bool
 
 Definition c20_sixel_violations (cases : list placement_case) : list Z :=
   bad_indices (fun c => negb (frames_sixel_ok [] (snd c) && frames_inside_ok (fst c) (snd c))) cases.
+
+(* ------------------------------------------------------------------ kitty transmissions (chunking)
+
+   KittyImage.Resize (encoder goroutine): the base64 text of the PNG picture, [n] bytes, is cut into
+   APC strings  ESC _ G f=100,i=<id>,m=<m>;<chunk> ESC \  by
+       b := make([]byte, 4096)
+       for buf.Len() > 0 { k, _ := buf.Read(b); m := 1; if buf.Len() == 0 { m = 0 }; emit(m, b[:k]) }
+   The chunking is a function of the LENGTH of the payload only: (m, size) per chunk, in order. *)
+Definition chunk_size : Z := 4096.
+
+Fixpoint chunks_fuel (fuel : nat) (n : Z) : list (Z * Z) :=
+  match fuel with
+  | O => []
+  | S f =>
+      if n <=? 0 then []                         (* buf.Len() > 0 fails *)
+      else let k := Z.min n chunk_size in         (* buf.Read(b) *)
+           let rest := n - k in                   (* buf.Len() afterwards *)
+           ((if rest =? 0 then 0 else 1), k) :: chunks_fuel f rest
+  end.
+
+(* n / 4096 + 1 rounds are enough (kitty_chunks_closed_form) *)
+Definition kitty_chunks (n : Z) : list (Z * Z) := chunks_fuel (Z.to_nat (n / chunk_size + 1)) n.
+
+(* What writeTo puts on the wire for a placement whose image has an unsent encoding, after the CUP:
+   the chunks, then the placement command.  token = (tag, m, size): 0 = a data chunk (f=100) of the
+   image, 1 = the a=p command of the image, 2 = anything else found in between. *)
+Definition txtok := (Z * Z * Z)%type.
+Definition tx_model (n : Z) : list txtok :=
+  map (fun c : Z * Z => (0, fst c, snd c)) (kitty_chunks n) ++ [(1, 0, 0)].
+
+(* The property on one observed transmission ("transmitted when it first appears or changes": the
+   terminal must end up holding the picture and then place it).  Kitty graphics protocol: every chunk
+   but the last carries m=1 and a payload of at most 4096 bytes that is a multiple of 4; the last one
+   carries m=0; nothing but chunks of the same transfer may come before the m=0 chunk; the a=p command
+   comes after it. *)
+Fixpoint framing_ok (l : list (Z * Z)) : bool :=
+  match l with
+  | [] => false
+  | (m, k) :: t =>
+      match t with
+      | [] => (m =? 0) && (0 <? k) && (k <=? chunk_size)
+      | _ => (m =? 1) && (0 <? k) && (k <=? chunk_size) && (k mod 4 =? 0) && framing_ok t
+      end
+  end.
+
+(* the chunks before the a=p command, when the tokens are chunks followed by exactly that command *)
+Fixpoint tx_chunks (toks : list txtok) : option (list (Z * Z)) :=
+  match toks with
+  | [] => None                                         (* never placed *)
+  | (tag, m, k) :: t =>
+      if tag =? 0 then match tx_chunks t with Some l => Some ((m, k) :: l) | None => None end
+      else if tag =? 1 then match t with [] => Some [] | _ => None end
+      else None                                        (* something else inside the transfer *)
+  end.
+
+Definition sum_sizes (l : list (Z * Z)) : Z := fold_right (fun c acc => snd c + acc) 0 l.
+
+(* stream "kittytx": one transmission of a KittyImage's picture as found in the console output.
+   case = (n, tokens, same): n = length of the base64 text of the PNG encoding of the picture
+   resizeImage returns (computed by the harness with the same encoders: oracle data); tokens = the
+   output from the first data chunk of the image up to and including its next a=p command (or the
+   end of the frame's output); same = 1 when the concatenated chunk payloads are that very text and
+   decode to the picture pixel for pixel. *)
+Definition tx_case := (Z * list txtok * Z)%type.
+
+Definition txtok_eqb (a b : txtok) : bool :=
+  let '(t, m, k) := a in let '(t', m', k') := b in (t =? t') && (m =? m') && (k =? k').
+
+Definition c20_kittytx_mismatches (cases : list tx_case) : list Z :=
+  bad_indices (fun c => let '(n, toks, same) := c in
+                        negb (list_eqb txtok_eqb (tx_model n) toks && (same =? 1))) cases.
+
+Definition tx_ok (c : tx_case) : bool :=
+  let '(n, toks, same) := c in
+  match tx_chunks toks with
+  | Some l => framing_ok l && (sum_sizes l =? n) && (same =? 1)
+  | None => false
+  end.
+
+Definition c20_kittytx_violations (cases : list tx_case) : list Z :=
+  bad_indices (fun c => negb (tx_ok c)) cases.
